@@ -629,9 +629,11 @@ class HttpStreamSession:
 
         Yields pre-loaded batches from init, then follows continuation tokens.
         """
-        # Yield pre-loaded batches from init response
-        yield from self._pending_batches
-        self._pending_batches.clear()
+        # Yield pre-loaded batches from init response.  Pop as we go so that a
+        # batch already handed out is never yielded again by a later iteration
+        # of the same session, and so that cancel() can discard the rest.
+        while self._pending_batches:
+            yield self._pending_batches.pop(0)
 
         if self._pending_error is not None:
             err, self._pending_error = self._pending_error, None
@@ -791,6 +793,10 @@ class HttpStreamSession:
         ``cancel()``, the session is marked finished; further ``exchange()``
         or iteration raises ``RpcError``.
         """
+        # Output prefetched by /init belongs to the cancelled stream: after
+        # cancel() the session must not deliver it.
+        self._pending_batches.clear()
+        self._pending_error = None
         if self._finished or self._state_bytes is None:
             self._finished = True
             self._state_bytes = None
